@@ -1550,6 +1550,14 @@ class FnTranslator:
         if k == 'CXXOperatorCallExpr':
             op = self.opname(n0)
             args = self.inner(n0)[1:]
+            if op == '++' and self.T(args[0])[0] == 'iter':
+                # ++it / it++ as a statement (for-init, for-increment, plain statement): the value is not used, both forms advance the index
+                c, i = self.iter_of(args[0])
+                if i[0] != 'var':
+                    self.err(n0, 'increment of a temporary iterator')
+                u64 = ('int', 64, False)
+                self.rule('iterator ++ as a statement -> index = index + 1')
+                return self.flush() + [('assign', i, ('bin', '+', i, ('const', u64, 1), u64))]
             if op == '=' and self.T(args[0])[0] != 'eig' and self.is_eigen_node(args[0]):
                 lhs = self.eig(args[0])
                 if lhs.lv is None and hasattr(lhs, 'sub'):
